@@ -914,7 +914,8 @@ func (c ConditionsSet) invert() ConditionsSet {
 	// !(a | b | c) == (!a & !b & !c)
 	conds := ConditionsSet{}
 	for _, cc := range c {
-		conds = conds.And(cc.invert())
+		// clean between the steps: the product of the uncleaned alternatives grows exponentially
+		conds = conds.And(cc.invert()).Clean()
 	}
 	return conds
 }
